@@ -20,8 +20,9 @@ INFO = {
 }
 
 MARK = 'zq9'
-STRS = ['', 'plain', 'héllo ☃', '<zq9a>', '"quoted" & <b>', 'a\nb', '{', '[1, 2', 'null', '123', 'x' * 300, ' spaced ', '{zq9b}', '\x00\x07']
-KEYS = ['a', 'b', 'key', 'é', '<zq9k>', 'k"q', '', 'A', '0', 'long_key_name']
+STRS = ['', 'plain', 'héllo ☃', '<zq9a>', '"quoted" & <b>', 'a\nb', '{', '[1, 2', 'null', '123', 'x' * 300, ' spaced ', '{zq9b}', '\x00\x07',
+        '<html>', '<!doctype html><html><body>x</body></html>', '{"a": 1}', '[1, 2]']
+KEYS = ['a', 'b', 'key', 'é', '<zq9k>', 'k"q', '', 'A', '0', 'long_key_name', '<html>']
 
 
 # ---------------------------------------------------------------- spec trees
